@@ -359,7 +359,7 @@ VERIFY_DEVS = {"MergeableThresholdOneNotPossible", "MergeableGlobalRuleNoRecorde
                "CodeReviewApprovalNotRevalidated"}
 
 
-def _verify(ctx, pid, fams, limit, invariants):
+def _verify(ctx, pid, fams, limit, invariants, extra=None):
     known, asbuilt = devsets(pid)
     asbuilt = (asbuilt & VERIFY_DEVS) | known
     tally = Tally(ctx)
@@ -411,6 +411,8 @@ def _verify(ctx, pid, fams, limit, invariants):
                 tally.add(x["cls"], item, dev=x.get("dev"), nontrivial_key=(fam, rec["id"], ref) if rec["nt"] else None)
         total += len(cls)
         samples.append({"family": fam, "log": scns[len(scns) // 2]["log"]})
+    if extra:
+        total += extra(ctx, tally)
     return finish(ctx, tally, samples=samples, traces=total,
                   assumptions=["logs are concretised on the harness' in-memory Git-format store: real tufv02 policy metadata signed "
                                "by a root key, SSH-signed RSL entries and commits, real reference-authorization attestations",
@@ -444,7 +446,44 @@ def c09(ctx):
 def c19(ctx):
     q = ctx.quick()
     fams = [("merge", 4 if q else 5, 3 if q else 11)]
-    return _verify(ctx, "C19", fams, 3000 if q else 40000, ["C19Agrees"])
+    return _verify(ctx, "C19", fams, 3000 if q else 40000, ["C19Agrees"], extra=_merge_file_rules)
+
+
+def _merge_file_rules(ctx, tally):
+    """C19 with file rules: for the commit graphs of MC_Trees the prediction made before the commits are recorded must agree
+    with verification of the recorded merge (the branch itself is unprotected there, so the listed branch-threshold
+    deviations of the prediction do not interfere)."""
+    q = ctx.quick()
+    mod = 97 if q else 11
+    scns, seen = [], set()
+    for shapes in ({"two", "linear", "back"}, {"merge", "mergeall"}):
+        r = run_tlc(ctx, "MC_Trees", dict(constants={"Dev": set(), "Shapes": shapes, "EmitMod": mod, "EmitRes": ctx.seed % mod}, constraints=["Emit"]),
+                    workers=4, timeout=3600)
+        if r.error or r.violated:
+            raise Infra("scenario emission failed: %s" % (r.error or r.violated))
+        for x in r.records:
+            k = json.dumps(x, sort_keys=True)
+            if x.get("t") == "SCN" and k not in seen:
+                seen.add(k)
+                scns.append(x)
+    if not scns:
+        raise Infra("TLC emitted no commit-graph scenarios")
+    d = ctx.sub("mergetrees")
+    scn_path = os.path.join(d, "scn.ndjson")
+    write_ndjson(scn_path, scns)
+    trace = os.path.join(d, "trace.ndjson")
+    run_vh(ctx, ["trees", "-scn", scn_path, "-out", trace, "-seed", ctx.seed, "-n", 150 if q else 2500], timeout=6 * 3600)
+    cls = validate_trace(ctx, "Trace_Trees", trace, {"Known": set(), "AsBuilt": set(), "Judge": '"C19"'}, shards=2 if q else 8)
+    lines = {x["id"]: x for x in read_ndjson(trace)}
+    for rec in cls:
+        x = rec["r"]
+        ln = lines[rec["id"]]
+        item = None
+        if x["cls"] != "conform":
+            item = {"family": "file rules", "why": x.get("why"), "names": ln["names"], "pattern": ln["pattern"], "scenario": ln["sc"],
+                    "verdict": ln["verdict"], "mergeable": ln["mergeable"], "mergemsg": ln["mergemsg"]}
+        tally.add(x["cls"], item, nontrivial_key=("trees", rec["id"]) if len(ln["sc"]["commits"]) >= 3 else None)
+    return len(cls)
 
 
 def c07(ctx):
@@ -619,7 +658,7 @@ def c10(ctx):
     write_ndjson(scn_path, scns)
     trace = os.path.join(ctx.scratch, "trace.ndjson")
     run_vh(ctx, ["trees", "-scn", scn_path, "-out", trace, "-seed", ctx.seed, "-n", 400 if q else 4000], timeout=6 * 3600)
-    cls = validate_trace(ctx, "Trace_Trees", trace, {"Known": known, "AsBuilt": asbuilt}, shards=4 if q else 12)
+    cls = validate_trace(ctx, "Trace_Trees", trace, {"Known": known, "AsBuilt": asbuilt, "Judge": '"C10"'}, shards=4 if q else 12)
     lines = {x["id"]: x for x in read_ndjson(trace)}
     tally = Tally(ctx)
     for rec in cls:
